@@ -332,6 +332,23 @@ func runC01(r *R) {
 		for _, ret := range Returns(fn) {
 			succ, _ := IsSuccessReturn(ret)
 			r.Check(!succ, "C01-R7", fn, "return", ret.Pos(), "never the nil constant", "collisionOrCorrupt returns constant nil")
+			// a returned variable error must be known non-nil: the function is only called after a mismatch was seen,
+			// so a nil result would tell the caller "identical content"
+			for _, x := range []ssa.Value{Strip(ret.Results[0])} {
+				if _, isC := x.(*ssa.Const); isC {
+					continue
+				}
+				if u, isU := x.(*ssa.UnOp); isU && u.Op == token.ARROW {
+					continue // the verdict computed by the hashing goroutine (CollisionError / DiskHashError)
+				}
+				if _, isG := LoadedGlobal(x); isG {
+					continue
+				}
+				cut := CorrelatedCut(fn, ret)
+				es, _ := IfEdges(fn, NeqC("err != nil", Is(x), NilV).Match)
+				cut.Add(es)
+				r.Check(!ReachFromEntry(fn, ret, cut), "C01-R7", fn, "return err", ret.Pos(), "the read error returned is non-nil on every path", "collisionOrCorrupt can return a nil read error: a corrupt or truncated stored copy is then reported as identical and the PUT is acknowledged without an intact copy")
+			}
 		}
 	}
 }
